@@ -233,10 +233,33 @@ def coq_make(targets, keep_going=False, timeout=3000):
         return sh(cmd, cwd=COQ, timeout=timeout + 60)
 
 
-def forbidden_scan():
-    """grep for vernacular that would void the proofs (whole development)."""
+def coq_deps(rel):
+    """Files of the development that `rel` (path relative to coq/) depends on,
+    transitively (including itself), found from its Require lines."""
+    allf = {os.path.splitext(os.path.relpath(f, 'theories'))[0].replace(os.sep, '.'): f for f in coq_files()}
+    seen, todo = set(), [rel]
+    while todo:
+        f = todo.pop()
+        if f in seen:
+            continue
+        seen.add(f)
+        try:
+            txt = open(os.path.join(COQ, f)).read()
+        except OSError:
+            continue
+        txt = re.sub(r'\(\*.*?\*\)', '', txt, flags=re.S)
+        for m in re.finditer(r'Require\s+(?:Import\s+|Export\s+)?(.*?)\.(?=\s|$)', txt, flags=re.S):
+            for name in m.group(1).split():
+                name = name.replace('HD.', '')
+                if name in allf:
+                    todo.append(allf[name])
+    return sorted(seen)
+
+
+def forbidden_scan(files=None):
+    """grep for vernacular that would void the proofs."""
     hits = []
-    for f in coq_files():
+    for f in (files if files is not None else coq_files()):
         txt = open(os.path.join(COQ, f)).read()
         txt = re.sub(r'\(\*.*?\*\)', '', txt, flags=re.S)
         for m in FORBIDDEN.finditer(txt):
@@ -290,7 +313,7 @@ def check_obligations(props_file):
             n = n.split('.')[-1]
             if n in obl and obl[n]['status'] == 'not-checked':
                 obl[n]['status'] = 'assumptions-not-parsed'
-    hits = forbidden_scan()
+    hits = forbidden_scan(coq_deps(path))
     if hits:
         for o in obl.values():
             o['status'] = 'forbidden-vernacular:' + ';'.join(hits[:3])
